@@ -194,6 +194,25 @@ func StdCheck(e *Explorer, w *worker, prev, ns *State, j int, label string, merg
 	if miss := closure(ns, j); miss != "" {
 		add("C04", "dangling-link", miss)
 	}
+	// ---- secondary index maintained by local writes and by merges: index-backed reads = listing ----
+	if cfg.IndexProbe != "" && row != nil {
+		vals := map[string]bool{`"a"`: true, "null": true}
+		for _, c := range ns.commits {
+			if c.Eff.Kind == "set" && c.Eff.Field == cfg.IndexProbe {
+				vals[fmt.Sprintf("%q", c.Eff.Val)] = true
+			}
+		}
+		del, _ := row["_deleted"].(bool)
+		cur := world.Canon(row[cfg.IndexProbe])
+		for v := range vals {
+			data, errs := world.Exec(w.ctx, w.dbs[j], fmt.Sprintf(`query { %s(filter: {%s: {_eq: %s}}) { _docID } }`, cfg.Coll, cfg.IndexProbe, v))
+			got := len(world.Rows(data, cfg.Coll)) > 0
+			want := !del && cur == v
+			if len(errs) > 0 || got != want {
+				add("C01", "index-backed-read-differs-from-listing", fmt.Sprintf("n%d %s = %s (deleted %v) but the index-backed filter %s: {_eq: %s} returns %v %v", j, cfg.IndexProbe, cur, del, cfg.IndexProbe, v, got, errs))
+			}
+		}
+	}
 	// ---- C01(b,c): the observable is a function of the merged set ----
 	if old, same := e.PathIndependence(MergedKey(ns, ns.M[j]), ob.Canon, path()); !same {
 		add("C01", "diverged", fmt.Sprintf("same merged set, different observable:\n  now  %s\n  via %v\n  then %s", ob.Canon, old.Path(), old.Canon()))
